@@ -1,6 +1,14 @@
 /-
   Property C16, order independence — the sign symmetry of the REAL numeric kernels, and what it gives for `Intersection`.
 
+  NOTE (repair D50, docs/fixes/D50_intersection_canonical_order.diff): the statements about `Intersection` in this file are about
+  the code BEFORE that repair — `intersectionOld` / `intersectionStableOld` of S2/EdgeNum.lean, in which only the stable kernel saw
+  sorted edges and the exact kernel / the vertex sum were evaluated on the caller's order — and are kept as REGRESSION WITNESSES:
+  they show what had to be assumed (`DecisiveAt`, `OccwSym` / `GenPos`), that each assumption was necessary, and the in-contract
+  order dependence D50 (`bitIdentityOld_violated_in_contract`).  The repaired `Intersection` canonicalises its argument order once;
+  its bit identity in all 8 orders needs none of these assumptions: S2Proofs.Properties.C16_Canonical.  The kernel theorems
+  (`kernelSym_real`, `KernelSymOn`) are about the kernels themselves and are unaffected by the repair.
+
   `S2Proofs.Properties.C16` proves bit identity of `Intersection` under the 8 argument orders for ABSTRACT kernels satisfying
   `KernelSym`.  This file looks at the kernels of the model (`intersectionStableSorted`, `intersectionExact`, `signCorrect`,
   coordinate-wise negation `V3.neg`):
@@ -9,24 +17,24 @@
        - `sc_neg` fails when the hemisphere test `pt·s` is exactly 0 (then `signCorrect` returns `pt` and `−pt` unchanged);
        - `e_revA/e_revB/e_swap` fail in the collinear branch of `intersectionExact`, which returns the SAME endpoint, not the
          negated one                                                                                  e_swap_not_negated
-     and `BitIdentityClaim` / `GoEqualityClaim` as stated are FALSE (edges with exactly antipodal endpoints pass `InContract`)
-                                                                               bitIdentityClaim_false, goEqualityClaim_false
+     and `BitIdentityClaimOld` / `GoEqualityClaimOld` as stated are FALSE (edges with exactly antipodal endpoints pass `InContract`)
+                                                                               bitIdentityClaimOld_false, goEqualityClaimOld_false
    * the corrected structure `KernelSymOn` (fields relativised to decidable domains, the exact kernel related by
      "same or negated") HOLDS for the real kernels, unconditionally                                       kernelSym_real
        domains: finite points (part of `GoodInput`);  hemisphere test decisive (`Decisive`: `pt·s` neither ±0 nor NaN);
        for REVERSING an edge in the collinear branch of the exact kernel: the `OrderedCCW` flags are symmetric (`OccwSym`,
        decidable; NOT proved from the float cascade of `RobustSign` — see DELIVER) — swapping the edges needs no such condition
-   * hence, for the model's `Intersection`                intersection_reverse_a, intersection_reverse_b, intersection_swap,
-       all 8 orders                                                                        intersection_order_independent
-     and the corrected claim over all inputs                                                        bitIdentityClaim_corrected
+   * hence, for the model's `Intersection`                intersectionOld_reverse_a, intersectionOld_reverse_b, intersectionOld_swap,
+       all 8 orders                                                                        intersectionOld_order_independent
+     and the corrected claim over all inputs                                                        bitIdentityClaimOld_corrected
    * `InContract ⇒ GoodInput` (no overflow on unit vectors, crossing edges share no vertex)          goodInput_of_inContract
      so that on the inputs of the property only `DecisiveAt` and (collinear branch) `OccwSym` remain
-                                                                                   intersection_order_independent_inContract
+                                                                                   intersectionOld_order_independent_inContract
    * `OccwSym` follows from ONE primitive decidable fact — no two of the vertices involved are parallel (`GenPos`: five exact
      determinants ≠ 0) — through the unconditional soundness of `RobustSign` (C02) and the error analysis of `Normalize`
-     (`C16N.toVector_normLe`)                                      occwSym_of_genPos, intersection_order_independent_genPos
+     (`C16N.toVector_normLe`)                                      occwSym_of_genPos, intersectionOld_order_independent_genPos
    * FINDING: `GenPos` cannot be dropped IN CONTRACT — collinear overlapping edges with two PARALLEL (not bit-equal) vertices:
-     reversing an edge changes the result by 5°                                               bitIdentity_violated_in_contract
+     reversing an edge changes the result by 5°                                               bitIdentityOld_violated_in_contract
    * both remaining side conditions are NECESSARY on `GoodInput` (bit-pattern counterexamples, reproduced with the Go code)
                                                                                         decisive_necessary, occwSym_necessary
 
@@ -271,31 +279,31 @@ def rawPoint (a0 a1 b0 b1 : V3) : V3 := rawPt intersectionStableSorted intersect
 def DecisiveAt (a0 a1 b0 b1 : V3) : Prop := Decisive (rawPoint a0 a1 b0 b1) (sum4 a0 a1 b0 b1)
 
 /-- the exact fallback is used and takes its collinear branch -/
-def ExactCollinear (a0 a1 b0 b1 : V3) : Prop := intersectionStable a0 a1 b0 b1 = none ∧ Collinear a0 a1 b0 b1
+def ExactCollinear (a0 a1 b0 b1 : V3) : Prop := intersectionStableOld a0 a1 b0 b1 = none ∧ Collinear a0 a1 b0 b1
 
 instance (a0 a1 b0 b1 : V3) : Decidable (DecisiveAt a0 a1 b0 b1) := by unfold DecisiveAt; infer_instance
 instance (a0 a1 b0 b1 : V3) : Decidable (ExactCollinear a0 a1 b0 b1) := by unfold ExactCollinear; infer_instance
 
-private theorem stableOn_eq (a0 a1 b0 b1 : V3) : stableOn intersectionStableSorted a0 a1 b0 b1 = intersectionStable a0 a1 b0 b1 := rfl
+private theorem stableOn_eq (a0 a1 b0 b1 : V3) : stableOn intersectionStableSorted a0 a1 b0 b1 = intersectionStableOld a0 a1 b0 b1 := rfl
 
 /-- **bit identity under reversing the first edge** -/
-theorem intersection_reverse_a {a0 a1 b0 b1 : V3} (G : GoodInput a0 a1 b0 b1) (hd : DecisiveAt a0 a1 b0 b1)
+theorem intersectionOld_reverse_a {a0 a1 b0 b1 : V3} (G : GoodInput a0 a1 b0 b1) (hd : DecisiveAt a0 a1 b0 b1)
     (hc : ExactCollinear a0 a1 b0 b1 → OccwSym a0 a1 b0 b1) :
-    intersection a1 a0 b0 b1 = intersection a0 a1 b0 b1 := by
-  rw [intersection_is_selection, intersection_is_selection]
+    intersectionOld a1 a0 b0 b1 = intersectionOld a0 a1 b0 b1 := by
+  rw [intersectionOld_is_selection, intersectionOld_is_selection]
   exact selection_reverse_a_on kernelSym_real G G.fin G.fin' (fun hn => ⟨G.fin, fun hcol => hc ⟨hn, hcol⟩⟩) hd
 
 /-- **bit identity under reversing the second edge** -/
-theorem intersection_reverse_b {a0 a1 b0 b1 : V3} (G : GoodInput a0 a1 b0 b1) (hd : DecisiveAt a0 a1 b0 b1)
+theorem intersectionOld_reverse_b {a0 a1 b0 b1 : V3} (G : GoodInput a0 a1 b0 b1) (hd : DecisiveAt a0 a1 b0 b1)
     (hc : ExactCollinear a0 a1 b0 b1 → OccwSym b0 b1 a0 a1) :
-    intersection a0 a1 b1 b0 = intersection a0 a1 b0 b1 := by
-  rw [intersection_is_selection, intersection_is_selection]
+    intersectionOld a0 a1 b1 b0 = intersectionOld a0 a1 b0 b1 := by
+  rw [intersectionOld_is_selection, intersectionOld_is_selection]
   exact selection_reverse_b_on kernelSym_real G G.fin G.fin' (fun hn => ⟨G.fin, fun hcol => hc ⟨hn, hcol⟩⟩) hd
 
 /-- **bit identity under swapping the two edges** (transversal AND collinear, no `OrderedCCW` hypothesis) -/
-theorem intersection_swap {a0 a1 b0 b1 : V3} (G : GoodInput a0 a1 b0 b1) (hd : DecisiveAt a0 a1 b0 b1) :
-    intersection b0 b1 a0 a1 = intersection a0 a1 b0 b1 := by
-  rw [intersection_is_selection, intersection_is_selection]
+theorem intersectionOld_swap {a0 a1 b0 b1 : V3} (G : GoodInput a0 a1 b0 b1) (hd : DecisiveAt a0 a1 b0 b1) :
+    intersectionOld b0 b1 a0 a1 = intersectionOld a0 a1 b0 b1 := by
+  rw [intersectionOld_is_selection, intersectionOld_is_selection]
   exact selection_swap_on kernelSym_real G G.fin hd
 
 /-! ### non-vacuity: concrete inputs meeting every hypothesis -/
@@ -306,7 +314,7 @@ private def f4b0 := mk 0xbfd0fc39f116dc7b 0x3feeda3bd53c8ea0 0x8000000000000000
 private def f4b1 := mk 0xbfeff135f8e02bbe 0x3faec05ffe58da34 0x8000000000000000
 /-- the STABLE path (regression input F4, in contract): finite, decisive, not collinear -/
 example : InContract f4a0 f4a1 f4b0 f4b1 ∧ GoodInput f4a0 f4a1 f4b0 f4b1 ∧ DecisiveAt f4a0 f4a1 f4b0 f4b1 ∧
-    ¬ ExactCollinear f4a0 f4a1 f4b0 f4b1 ∧ intersectionStable f4a0 f4a1 f4b0 f4b1 ≠ none := by decide +kernel
+    ¬ ExactCollinear f4a0 f4a1 f4b0 f4b1 ∧ intersectionStableOld f4a0 f4a1 f4b0 f4b1 ≠ none := by decide +kernel
 
 /-- the stable kernel on F4: accepted in every order, the point is NEGATED (bit for bit here) by each reversal -/
 example : ORel (intersectionStableSorted f4a1 f4a0 f4b0 f4b1) (intersectionStableSorted f4a0 f4a1 f4b0 f4b1) ∧
@@ -331,8 +339,8 @@ example : FinInput f3a0 f3a1 f3b0 f3b1 ∧ RevAOK f3a0 f3a1 f3b0 f3b1 ∧ RevBOK
 /-- WITHOUT `DecisiveAt` the result is NOT order independent: two transversal edges whose four vertices sum to exactly 0
     (`a = (0.6, ±0.8, 0)`, `b = (−0.6, 0, ±0.8)`): `pt·s = ±0`, the hemisphere correction keeps `pt` and `−pt`. -/
 theorem decisive_necessary : ∃ a0 a1 b0 b1 : V3, GoodInput a0 a1 b0 b1 ∧ ¬ ExactCollinear a0 a1 b0 b1 ∧
-    ¬ DecisiveAt a0 a1 b0 b1 ∧ intersection a1 a0 b0 b1 ≠ intersection a0 a1 b0 b1 ∧
-    intersection a0 a1 b1 b0 ≠ intersection a0 a1 b0 b1 ∧ intersection b0 b1 a0 a1 ≠ intersection a0 a1 b0 b1 :=
+    ¬ DecisiveAt a0 a1 b0 b1 ∧ intersectionOld a1 a0 b0 b1 ≠ intersectionOld a0 a1 b0 b1 ∧
+    intersectionOld a0 a1 b1 b0 ≠ intersectionOld a0 a1 b0 b1 ∧ intersectionOld b0 b1 a0 a1 ≠ intersectionOld a0 a1 b0 b1 :=
   ⟨mk 0x3fe3333333333333 0x3fe999999999999a 0, mk 0x3fe3333333333333 0xbfe999999999999a 0,
    mk 0xbfe3333333333333 0 0x3fe999999999999a, mk 0xbfe3333333333333 0 0xbfe999999999999a, by decide +kernel⟩
 
@@ -342,18 +350,18 @@ theorem decisive_necessary : ∃ a0 a1 b0 b1 : V3, GoodInput a0 a1 b0 b1 ∧ ¬ 
     `Intersection(a0,a1,b0,b1) = (1+2^-52,0,0)` but `Intersection(a1,a0,b0,b1)` = the sentinel `(10,10,10)`.
     (The two edges do not cross: the input satisfies `GoodInput` and `DecisiveAt`, not `InContract`.) -/
 theorem occwSym_necessary : ∃ a0 a1 b0 b1 : V3, GoodInput a0 a1 b0 b1 ∧ DecisiveAt a0 a1 b0 b1 ∧
-    ExactCollinear a0 a1 b0 b1 ∧ ¬ OccwSym a0 a1 b0 b1 ∧ intersection a1 a0 b0 b1 ≠ intersection a0 a1 b0 b1 :=
+    ExactCollinear a0 a1 b0 b1 ∧ ¬ OccwSym a0 a1 b0 b1 ∧ intersectionOld a1 a0 b0 b1 ≠ intersectionOld a0 a1 b0 b1 :=
   ⟨mk 0x3ff0000000000000 0 0, mk 0x3fe3333333333333 0x3fe999999999999a 0,
    mk 0x3ff0000000000001 0 0, mk 0x3fe999999999999a 0xbfe3333333333333 0, by decide +kernel⟩
 
 /-! ## the claim of the property -/
 
-/-- `BitIdentityClaim` AS STATED (over `InContract` = unit length + `CrossingSign == Cross`) is FALSE: two edges with EXACTLY
+/-- `BitIdentityClaimOld` AS STATED (over `InContract` = unit length + `CrossingSign == Cross`) is FALSE: two edges with EXACTLY
     antipodal endpoints, `a = (1,0,0)→(−1,0,0)`, `b = (0,1,0)→(0,−1,0)`, pass `InContract` (the model's `CrossingSign` says
     Cross), both normals are exactly 0, the collinear branch answers, the vertex sum is exactly 0 — and reversing `b` changes the
     result from `(−1,0,0)` to `(0,1,0)`.  (Edges of exactly 180° are outside the documented contract of S2 and outside the
     quantifier of the property, "edge lengths … to NEARLY 180 degrees": the Lean predicate `InContract` is too wide.) -/
-theorem bitIdentityClaim_false : ¬ BitIdentityClaim := by
+theorem bitIdentityClaimOld_false : ¬ BitIdentityClaimOld := by
   intro h
   have hc : InContract (mk 0x3ff0000000000000 0 0) (mk 0xbff0000000000000 0 0) (mk 0 0x3ff0000000000000 0)
       (mk 0 0xbff0000000000000 0) := by decide +kernel
@@ -361,8 +369,8 @@ theorem bitIdentityClaim_false : ¬ BitIdentityClaim := by
   revert this
   decide +kernel
 
-/-- the weaker `GoEqualityClaim` (Go `==`) is false as stated for the same reason, on the same input -/
-theorem goEqualityClaim_false : ¬ GoEqualityClaim := by
+/-- the weaker `GoEqualityClaimOld` (Go `==`) is false as stated for the same reason, on the same input -/
+theorem goEqualityClaimOld_false : ¬ GoEqualityClaimOld := by
   intro h
   have hc : InContract (mk 0x3ff0000000000000 0 0) (mk 0xbff0000000000000 0 0) (mk 0 0x3ff0000000000000 0)
       (mk 0 0xbff0000000000000 0) := by decide +kernel
@@ -373,22 +381,22 @@ theorem goEqualityClaim_false : ¬ GoEqualityClaim := by
 /-- the corrected claim: all inputs meeting the decidable conditions `GoodInput` (finite points, finite squared lengths and
     vertex sums, different smaller endpoints), `DecisiveAt` (hemisphere test not exactly 0 / NaN) and — only when the exact
     fallback takes its collinear branch — symmetric `OrderedCCW` flags -/
-def BitIdentityClaimCorrected : Prop := ∀ a0 a1 b0 b1, GoodInput a0 a1 b0 b1 → DecisiveAt a0 a1 b0 b1 →
+def BitIdentityClaimOldCorrected : Prop := ∀ a0 a1 b0 b1, GoodInput a0 a1 b0 b1 → DecisiveAt a0 a1 b0 b1 →
   (ExactCollinear a0 a1 b0 b1 → OccwSym a0 a1 b0 b1 ∧ OccwSym b0 b1 a0 a1) →
-  intersection a1 a0 b0 b1 = intersection a0 a1 b0 b1 ∧ intersection a0 a1 b1 b0 = intersection a0 a1 b0 b1 ∧
-  intersection b0 b1 a0 a1 = intersection a0 a1 b0 b1
+  intersectionOld a1 a0 b0 b1 = intersectionOld a0 a1 b0 b1 ∧ intersectionOld a0 a1 b1 b0 = intersectionOld a0 a1 b0 b1 ∧
+  intersectionOld b0 b1 a0 a1 = intersectionOld a0 a1 b0 b1
 
 /-- **C16, bit identity, for the real kernels** (corrected statement; both side conditions are necessary:
     `decisive_necessary`, `occwSym_necessary`) -/
-theorem bitIdentityClaim_corrected : BitIdentityClaimCorrected := fun a0 a1 b0 b1 G hd hc =>
-  ⟨intersection_reverse_a G hd (fun h => (hc h).1), intersection_reverse_b G hd (fun h => (hc h).2), intersection_swap G hd⟩
+theorem bitIdentityClaimOld_corrected : BitIdentityClaimOldCorrected := fun a0 a1 b0 b1 G hd hc =>
+  ⟨intersectionOld_reverse_a G hd (fun h => (hc h).1), intersectionOld_reverse_b G hd (fun h => (hc h).2), intersectionOld_swap G hd⟩
 
 /-- for edges that are NOT exactly collinear (or whenever the stable kernel accepts) no `OrderedCCW` hypothesis is left -/
-theorem bitIdentity_transversal {a0 a1 b0 b1 : V3} (G : GoodInput a0 a1 b0 b1) (hd : DecisiveAt a0 a1 b0 b1)
+theorem bitIdentityOld_transversal {a0 a1 b0 b1 : V3} (G : GoodInput a0 a1 b0 b1) (hd : DecisiveAt a0 a1 b0 b1)
     (ht : ¬ ExactCollinear a0 a1 b0 b1) :
-    intersection a1 a0 b0 b1 = intersection a0 a1 b0 b1 ∧ intersection a0 a1 b1 b0 = intersection a0 a1 b0 b1 ∧
-    intersection b0 b1 a0 a1 = intersection a0 a1 b0 b1 :=
-  bitIdentityClaim_corrected a0 a1 b0 b1 G hd (fun h => absurd h ht)
+    intersectionOld a1 a0 b0 b1 = intersectionOld a0 a1 b0 b1 ∧ intersectionOld a0 a1 b1 b0 = intersectionOld a0 a1 b0 b1 ∧
+    intersectionOld b0 b1 a0 a1 = intersectionOld a0 a1 b0 b1 :=
+  bitIdentityClaimOld_corrected a0 a1 b0 b1 G hd (fun h => absurd h ht)
 
 /-! ## all 8 argument orders -/
 
@@ -417,7 +425,7 @@ theorem SymInput.revA {a0 a1 b0 b1 : V3} (S : SymInput a0 a1 b0 b1) : SymInput a
     rw [hs]
     exact (decisive_pm _ (rawPt_reverse_a kernelSym_real G G.fin G.fin' hA)).mpr S.dec
   · rintro ⟨hn', hcol'⟩
-    have hn : intersectionStable a0 a1 b0 b1 = none :=
+    have hn : intersectionStableOld a0 a1 b0 b1 = none :=
       (none_iff_of_ZEqO (stableOn_reverse_a kernelSym_real G G.fin G.fin')).mp hn'
     have hcol : Collinear a0 a1 b0 b1 := by
       unfold Collinear at *; rw [← feq_zero3_R3 (xOf_revA a0 a1 b0 b1)]; exact hcol'
@@ -435,7 +443,7 @@ theorem SymInput.revB {a0 a1 b0 b1 : V3} (S : SymInput a0 a1 b0 b1) : SymInput a
     rw [hs]
     exact (decisive_pm _ (rawPt_reverse_b kernelSym_real G G.fin G.fin' hB)).mpr S.dec
   · rintro ⟨hn', hcol'⟩
-    have hn : intersectionStable a0 a1 b0 b1 = none :=
+    have hn : intersectionStableOld a0 a1 b0 b1 = none :=
       (none_iff_of_ZEqO (stableOn_reverse_b kernelSym_real G G.fin G.fin')).mp hn'
     have hcol : Collinear a0 a1 b0 b1 := by
       unfold Collinear at *; rw [← feq_zero3_R3 (xOf_revB a0 a1 b0 b1)]; exact hcol'
@@ -451,7 +459,7 @@ theorem SymInput.swap {a0 a1 b0 b1 : V3} (S : SymInput a0 a1 b0 b1) : SymInput b
     rw [hs]
     exact (decisive_pm _ (rawPt_swap kernelSym_real G G.fin)).mpr S.dec
   · rintro ⟨hn', hcol'⟩
-    have hn : intersectionStable a0 a1 b0 b1 = none := by
+    have hn : intersectionStableOld a0 a1 b0 b1 = none := by
       have := stableOn_swap (K := intersectionStableSorted) G
       rw [stableOn_eq, stableOn_eq] at this
       rw [← this]; exact hn'
@@ -462,20 +470,20 @@ theorem SymInput.swap {a0 a1 b0 b1 : V3} (S : SymInput a0 a1 b0 b1) : SymInput b
 
 /-- **ORDER INDEPENDENCE (BIT IDENTITY) of the model's `Intersection`, real kernels**: all 8 argument orders (reverse either
     edge, swap the edges) give the same bits on every input meeting the side conditions. -/
-theorem intersection_order_independent {a0 a1 b0 b1 : V3} (S : SymInput a0 a1 b0 b1) :
-    intersection a1 a0 b0 b1 = intersection a0 a1 b0 b1 ∧
-    intersection a0 a1 b1 b0 = intersection a0 a1 b0 b1 ∧
-    intersection a1 a0 b1 b0 = intersection a0 a1 b0 b1 ∧
-    intersection b0 b1 a0 a1 = intersection a0 a1 b0 b1 ∧
-    intersection b0 b1 a1 a0 = intersection a0 a1 b0 b1 ∧
-    intersection b1 b0 a0 a1 = intersection a0 a1 b0 b1 ∧
-    intersection b1 b0 a1 a0 = intersection a0 a1 b0 b1 := by
-  have ra : ∀ {a0 a1 b0 b1 : V3}, SymInput a0 a1 b0 b1 → intersection a1 a0 b0 b1 = intersection a0 a1 b0 b1 :=
-    fun S => intersection_reverse_a S.good S.dec (fun h => (S.occ h).1)
-  have rb : ∀ {a0 a1 b0 b1 : V3}, SymInput a0 a1 b0 b1 → intersection a0 a1 b1 b0 = intersection a0 a1 b0 b1 :=
-    fun S => intersection_reverse_b S.good S.dec (fun h => (S.occ h).2)
-  have sw : ∀ {a0 a1 b0 b1 : V3}, SymInput a0 a1 b0 b1 → intersection b0 b1 a0 a1 = intersection a0 a1 b0 b1 :=
-    fun S => intersection_swap S.good S.dec
+theorem intersectionOld_order_independent {a0 a1 b0 b1 : V3} (S : SymInput a0 a1 b0 b1) :
+    intersectionOld a1 a0 b0 b1 = intersectionOld a0 a1 b0 b1 ∧
+    intersectionOld a0 a1 b1 b0 = intersectionOld a0 a1 b0 b1 ∧
+    intersectionOld a1 a0 b1 b0 = intersectionOld a0 a1 b0 b1 ∧
+    intersectionOld b0 b1 a0 a1 = intersectionOld a0 a1 b0 b1 ∧
+    intersectionOld b0 b1 a1 a0 = intersectionOld a0 a1 b0 b1 ∧
+    intersectionOld b1 b0 a0 a1 = intersectionOld a0 a1 b0 b1 ∧
+    intersectionOld b1 b0 a1 a0 = intersectionOld a0 a1 b0 b1 := by
+  have ra : ∀ {a0 a1 b0 b1 : V3}, SymInput a0 a1 b0 b1 → intersectionOld a1 a0 b0 b1 = intersectionOld a0 a1 b0 b1 :=
+    fun S => intersectionOld_reverse_a S.good S.dec (fun h => (S.occ h).1)
+  have rb : ∀ {a0 a1 b0 b1 : V3}, SymInput a0 a1 b0 b1 → intersectionOld a0 a1 b1 b0 = intersectionOld a0 a1 b0 b1 :=
+    fun S => intersectionOld_reverse_b S.good S.dec (fun h => (S.occ h).2)
+  have sw : ∀ {a0 a1 b0 b1 : V3}, SymInput a0 a1 b0 b1 → intersectionOld b0 b1 a0 a1 = intersectionOld a0 a1 b0 b1 :=
+    fun S => intersectionOld_swap S.good S.dec
   have e1 := ra S
   have e2 := rb S
   have e3 := (ra S.revB).trans e2
@@ -492,16 +500,16 @@ theorem goodInput_of_inContract {a0 a1 b0 b1 : V3} (h : InContract a0 a1 b0 b1) 
 
 /-- **C16 bit identity on in-contract inputs**: all 8 argument orders give the same bits whenever the hemisphere test is
     decisive and (collinear branch only) the `OrderedCCW` flags are symmetric. -/
-theorem intersection_order_independent_inContract {a0 a1 b0 b1 : V3} (h : InContract a0 a1 b0 b1)
+theorem intersectionOld_order_independent_inContract {a0 a1 b0 b1 : V3} (h : InContract a0 a1 b0 b1)
     (hd : DecisiveAt a0 a1 b0 b1) (hc : ExactCollinear a0 a1 b0 b1 → OccwSym a0 a1 b0 b1 ∧ OccwSym b0 b1 a0 a1) :
-    intersection a1 a0 b0 b1 = intersection a0 a1 b0 b1 ∧
-    intersection a0 a1 b1 b0 = intersection a0 a1 b0 b1 ∧
-    intersection a1 a0 b1 b0 = intersection a0 a1 b0 b1 ∧
-    intersection b0 b1 a0 a1 = intersection a0 a1 b0 b1 ∧
-    intersection b0 b1 a1 a0 = intersection a0 a1 b0 b1 ∧
-    intersection b1 b0 a0 a1 = intersection a0 a1 b0 b1 ∧
-    intersection b1 b0 a1 a0 = intersection a0 a1 b0 b1 :=
-  intersection_order_independent ⟨goodInput_of_inContract h, hd, hc⟩
+    intersectionOld a1 a0 b0 b1 = intersectionOld a0 a1 b0 b1 ∧
+    intersectionOld a0 a1 b1 b0 = intersectionOld a0 a1 b0 b1 ∧
+    intersectionOld a1 a0 b1 b0 = intersectionOld a0 a1 b0 b1 ∧
+    intersectionOld b0 b1 a0 a1 = intersectionOld a0 a1 b0 b1 ∧
+    intersectionOld b0 b1 a1 a0 = intersectionOld a0 a1 b0 b1 ∧
+    intersectionOld b1 b0 a0 a1 = intersectionOld a0 a1 b0 b1 ∧
+    intersectionOld b1 b0 a1 a0 = intersectionOld a0 a1 b0 b1 :=
+  intersectionOld_order_independent ⟨goodInput_of_inContract h, hd, hc⟩
 
 /-! ## the `OrderedCCW` hypothesis from primitive facts (through the unconditional `RobustSign = exact decision` of C02) -/
 
@@ -525,16 +533,16 @@ theorem occwSym_of_genPos {a0 a1 b0 b1 : V3} (ua0 : UnitPt a0) (ua1 : UnitPt a1)
 /-- **C16 bit identity on in-contract inputs, `OrderedCCW` hypothesis discharged**: all 8 argument orders give the same bits
     whenever the hemisphere test is decisive and — only if the exact fallback takes its collinear branch — no two of the
     vertices are parallel (general position against both rounded normals). -/
-theorem intersection_order_independent_genPos {a0 a1 b0 b1 : V3} (h : InContract a0 a1 b0 b1)
+theorem intersectionOld_order_independent_genPos {a0 a1 b0 b1 : V3} (h : InContract a0 a1 b0 b1)
     (hd : DecisiveAt a0 a1 b0 b1) (hg : ExactCollinear a0 a1 b0 b1 → GenPos a0 a1 b0 b1 ∧ GenPos b0 b1 a0 a1) :
-    intersection a1 a0 b0 b1 = intersection a0 a1 b0 b1 ∧
-    intersection a0 a1 b1 b0 = intersection a0 a1 b0 b1 ∧
-    intersection a1 a0 b1 b0 = intersection a0 a1 b0 b1 ∧
-    intersection b0 b1 a0 a1 = intersection a0 a1 b0 b1 ∧
-    intersection b0 b1 a1 a0 = intersection a0 a1 b0 b1 ∧
-    intersection b1 b0 a0 a1 = intersection a0 a1 b0 b1 ∧
-    intersection b1 b0 a1 a0 = intersection a0 a1 b0 b1 :=
-  intersection_order_independent_inContract h hd (fun hc =>
+    intersectionOld a1 a0 b0 b1 = intersectionOld a0 a1 b0 b1 ∧
+    intersectionOld a0 a1 b1 b0 = intersectionOld a0 a1 b0 b1 ∧
+    intersectionOld a1 a0 b1 b0 = intersectionOld a0 a1 b0 b1 ∧
+    intersectionOld b0 b1 a0 a1 = intersectionOld a0 a1 b0 b1 ∧
+    intersectionOld b0 b1 a1 a0 = intersectionOld a0 a1 b0 b1 ∧
+    intersectionOld b1 b0 a0 a1 = intersectionOld a0 a1 b0 b1 ∧
+    intersectionOld b1 b0 a1 a0 = intersectionOld a0 a1 b0 b1 :=
+  intersectionOld_order_independent_inContract h hd (fun hc =>
     ⟨occwSym_of_genPos h.1 h.2.1 h.2.2.1 h.2.2.2.1 (hg hc).1, occwSym_of_genPos h.2.2.1 h.2.2.2.1 h.1 h.2.1 (hg hc).2⟩)
 
 /-- **FINDING (in contract; reproduced with the Go code): `GenPos` / `OccwSym` cannot be dropped even on in-contract inputs.**
@@ -544,11 +552,11 @@ theorem intersection_order_independent_genPos {a0 a1 b0 b1 : V3} (h : InContract
     two different float vectors), the determinant `det(a1, n, b1)` vanishes, `RobustSign` is decided by the symbolic perturbation,
     and the collinear rule returns `b1` for `(a0,a1,b0,b1)`, `a0` (5° away!) for `(a1,a0,b0,b1)` and `a1` for `(a0,a1,b1,b0)`.
     Hence the property "bit-identical under reversing either edge" FAILS on this in-contract input (swapping the edges is fine,
-    as `intersection_swap` proves). -/
-theorem bitIdentity_violated_in_contract : ∃ a0 a1 b0 b1 : V3, InContract a0 a1 b0 b1 ∧ DecisiveAt a0 a1 b0 b1 ∧
+    as `intersectionOld_swap` proves). -/
+theorem bitIdentityOld_violated_in_contract : ∃ a0 a1 b0 b1 : V3, InContract a0 a1 b0 b1 ∧ DecisiveAt a0 a1 b0 b1 ∧
     ExactCollinear a0 a1 b0 b1 ∧ ¬ GenPos a0 a1 b0 b1 ∧
-    intersection a0 a1 b0 b1 = b1 ∧ intersection a1 a0 b0 b1 = a0 ∧ intersection a0 a1 b1 b0 = a1 ∧
-    intersection b0 b1 a0 a1 = b1 :=
+    intersectionOld a0 a1 b0 b1 = b1 ∧ intersectionOld a1 a0 b0 b1 = a0 ∧ intersectionOld a0 a1 b1 b0 = a1 ∧
+    intersectionOld b0 b1 a0 a1 = b1 :=
   ⟨mk 0x3fb64fd6b8c28100 0x3fefe0d3b41815a2 0, mk 0 0x3feffffffffffffe 0,
    mk 0x3fe491b7523c161d 0xbfe8836fa2cf5039 0, mk 0 0x3fefffffffffffff 0, by decide +kernel⟩
 
